@@ -14,10 +14,12 @@ NOTE = ("Trusted: Lean 4.33 kernel (axioms of every listed theorem are audited o
 # id -> (engine, claimed?, level text, technique, design ref)
 P = {
  "C01": ("proto", True,
-  "Lean theorems over the model of iauth_core/xquery/class: the request table never stores a request with RESPONDED set, every verdict removes "
+  "Lean theorem C01_history: for every history of input chunks and timer expiries from the started daemon, the model's line-level trace is accepted "
+  "by the reader Spec01 (every client-directed line and query names a live instance; one soft-done, one verdict and one serial per instance; "
+  "nothing after the verdict), with the trace proved to be the run (C01_trace_faithful). Below it: the request table never stores a request with RESPONDED set, every verdict removes "
   "its request, handlers touch only the request they were given (invariant by induction over every input line). The Spec (a tracker over "
   "observable history only) is evaluated by the Lean-compiled judge on the real daemon's output for seeded multi-client histories with id "
-  "reuse, and model and code are compared line by line.", "Lean 4 invariant proofs + Spec judge on implementation traces + model/implementation correspondence"),
+  "reuse, and model and code are compared line by line.", "Lean 4 proof that every model history satisfies the C01 reader (simulation) + the same reader and the trace judge on implementation traces + model/implementation correspondence"),
  "C02": ("proto", True,
   "Lean theorems on the gate of the model (a client is accepted only with holds = 0, required flags present, and soft holds zero or an expired "
   "timeout) plus the observable-history Spec (data delivered, no unanswered query unless timed out, +! needs a vouched stamp, never after a refusal) "
